@@ -109,6 +109,9 @@ def run_check(check_id, tier, seed, W, n_jobs_override=None, budget_override=Non
     procs, deadline = framework.spawn_workers(check_id, seed, tier, W, n_jobs, budget)
     acc, viols, errors, jobs = framework.collect_workers(procs, deadline + params.get("grace_s", 600.0))
     search_wall = time.time() - t0
+    if hasattr(check, "driver_violations"):
+        viols.extend(check.driver_violations(acc))
+    acc.pop("refkeys", None)
 
     # ---- violations: group by signature, minimise, confirm, classify
     exit_code = common.EXIT_OK
